@@ -19,6 +19,15 @@
 (***************************************************************************)
 EXTENDS PurlBuilder
 
+\* the well-known typed qualifiers (qualifiers/well_known.rs, gem.rs, maven.rs): Rust type name -> key
+KnownKey(n) == CASE n = "RepositoryUrl" -> REPO
+                 [] n = "DownloadUrl" -> <<100,111,119,110,108,111,97,100,95,117,114,108>>     \* download_url
+                 [] n = "VcsUrl" -> <<118,99,115,95,117,114,108>>                                \* vcs_url
+                 [] n = "FileName" -> <<102,105,108,101,95,110,97,109,101>>                      \* file_name
+                 [] n = "gem::Platform" -> <<112,108,97,116,102,111,114,109>>                   \* platform
+                 [] n = "maven::Classifier" -> <<99,108,97,115,115,105,102,105,101,114>>         \* classifier
+                 [] n = "maven::Type" -> <<116,121,112,101>>                                      \* type
+KnownNames == {"RepositoryUrl", "DownloadUrl", "VcsUrl", "FileName", "gem::Platform", "maven::Classifier", "maven::Type"}
 Some(x) == [some |-> TRUE, v |-> x]
 None == [some |-> FALSE]
 QErr == [ok |-> FALSE, err |-> "InvalidQualifier"]
@@ -75,6 +84,12 @@ MapApply(m, op, tab) ==
     [] op[1] = "insert_typed_repo" -> R(FnSet(m, REPO, k), [unit |-> TRUE])
     [] op[1] = "remove_typed_repo" -> R(FnDel(m, REPO), [unit |-> TRUE])
     [] op[1] = "get_typed_repo" -> R(m, IF REPO \in DOMAIN m THEN Some(m[REPO]) ELSE None)
+    \* generic typed accessors: op = <<name, RustTypeName, value?>>
+    [] op[1] = "insert_typed" -> R(FnSet(m, KnownKey(op[2]), op[3]), [unit |-> TRUE])
+    [] op[1] = "remove_typed" -> R(FnDel(m, KnownKey(op[2])), [unit |-> TRUE])
+    [] op[1] = "get_typed" -> R(m, IF KnownKey(op[2]) \in DOMAIN m THEN Some(m[KnownKey(op[2])]) ELSE None)
+    \* documented panic: a typed qualifier whose declared KEY is invalid ("!")
+    [] op[1] = "insert_typed_badkey" -> R(m, Panic)
     [] op[1] = "try_get_typed_checksum" ->
          R(m, IF CHECKSUM \notin DOMAIN m THEN [ok |-> TRUE, some |-> FALSE]
               ELSE LET p == CkParse(m[CHECKSUM], tab) IN
@@ -163,6 +178,12 @@ VecApply(vec, op, tab) ==
                                       V(IF s.found THEN SetAt(vec, s.idx, k) ELSE InsAt(vec, s.idx, <<REPO, k>>), [unit |-> TRUE])
     [] op[1] = "remove_typed_repo" -> LET s == Search(vec, REPO, tab) IN V(IF s.found THEN DelAt(vec, s.idx) ELSE vec, [unit |-> TRUE])
     [] op[1] = "get_typed_repo" -> LET s == Search(vec, REPO, tab) IN V(vec, IF s.found THEN Some(vec[s.idx][2]) ELSE None)
+    [] op[1] = "insert_typed" -> LET kk == KnownKey(op[2])  s == Search(vec, kk, tab) IN
+                                 V(IF s.found THEN SetAt(vec, s.idx, op[3]) ELSE InsAt(vec, s.idx, <<kk, op[3]>>), [unit |-> TRUE])
+    [] op[1] = "remove_typed" -> LET s == Search(vec, KnownKey(op[2]), tab) IN V(IF s.found THEN DelAt(vec, s.idx) ELSE vec, [unit |-> TRUE])
+    [] op[1] = "get_typed" -> LET s == Search(vec, KnownKey(op[2]), tab) IN V(vec, IF s.found THEN Some(vec[s.idx][2]) ELSE None)
+    \* insert(KEY, value).unwrap() with an invalid KEY: check_qualifier_key fails, unwrap panics
+    [] op[1] = "insert_typed_badkey" -> V(vec, Panic)
     [] op[1] = "try_get_typed_checksum" ->
          LET s == Search(vec, CHECKSUM, tab) IN
          V(vec, IF ~s.found THEN [ok |-> TRUE, some |-> FALSE]
